@@ -4,7 +4,7 @@ package main
 // input: "cfg <batchSize> <maxRetries> <workers> <waitMs> <mode> ; d <id> <script> | w | p <ms> ; ..."
 //   "d <id> <script> e": the request names no index (empty Index)
 //   script: verdict per attempt of that document, o = 2xx, r = retryable error, m = mapping conflict (last one repeats)
-//   mode:   normal | linger (normal, observed for 5.5 s after the last answer) | shutdown (Shutdown right after the last submission) | whole:<k> (bulk call k fails as a whole)
+//   mode:   normal | ctx (the node runs inside a node.Context: answers are observed at its child / error handler) | linger (normal, observed for 5.5 s after the last answer) | shutdown (Shutdown right after the last submission) | whole:<k> (bulk call k fails as a whole)
 //           | late:<k> (bulk call k answers after the per-request deadline)
 
 import (
@@ -20,6 +20,7 @@ import (
 	"github.com/olivere/elastic/v7"
 
 	"github.com/digitalocean/firebolt"
+	"github.com/digitalocean/firebolt/node"
 	"github.com/digitalocean/firebolt/node/elasticsearch"
 )
 
@@ -39,7 +40,8 @@ func genEsSink(r *rng, n int, tier string, emit func(string)) {
 		"cfg 2 1 1 20 linger ; d 1 rr ; d 2 o ; d 3 rm",
 		// a refused bulk request (5 s back-off) must not use up the per-document retry budget
 		"cfg 2 1 1 20 whole:0 ; d 1 o ; d 2 ro ; d 3 m",
-		"cfg 5 1 1 20 normal ; d 1 o ; d 2 m ; d 3 m ; d 4 rr ; d 5 rr",        // several permanent failures of one kind in one response
+		"cfg 5 1 1 20 normal ; d 1 o ; d 2 m ; d 3 m ; d 4 rr ; d 5 rr",
+		"cfg 3 1 2 20 ctx ; d 1 o ; d 2 m ; d 3 ro ; d 4 o ; d 5 rr",              // inside a node context: indexed documents go on to the child, failures to the handler           // several permanent failures of one kind in one response
 		"cfg 4 1 1 20 normal ; d 1 o ; d 2 o e ; d 3 m ; d 4 o ; d 5 o e ; d 6 o", // requests without an index name inside batches
 	} {
 		emit(c)
@@ -53,7 +55,9 @@ func genEsSink(r *rng, n int, tier string, emit func(string)) {
 		w := int(r.pick(1, 1, 2, 4))
 		wait := int(r.pick(10, 20, 30))
 		mode := "normal"
-		if r.chance(6) {
+		if r.chance(15) {
+			mode = "ctx"
+		} else if r.chance(6) {
 			mode = "shutdown"
 			wait = 5000
 		}
@@ -232,8 +236,62 @@ func execEsSink(input string) string {
 		answers[key] = append(answers[key], a)
 		mu.Unlock()
 	}
+	// mode ctx: the node runs inside a node.Context as under the executor: answers are what arrives at its child (success),
+	// at its error handler (failure) or nowhere (counted as filtered)
+	var nctx *node.Context
+	stopDrain := make(chan struct{})
+	if mode == "ctx" {
+		run := nextRunID()
+		mk := func(suffix string) *node.Context {
+			return &node.Context{Config: &node.Config{ID: fmt.Sprintf("es%d_%s", run, suffix), BufferSize: 4096}, Ch: make(chan firebolt.Event, 4096)}
+		}
+		child, handler := mk("child"), mk("handler")
+		nctx = &node.Context{Config: &node.Config{ID: fmt.Sprintf("es%d", run), Workers: 1, BufferSize: 1}, NodeType: node.Async, NodeProcessor: es,
+			Children: []*node.Context{child}, ErrorHandler: handler}
+		keyOf := func(p interface{}) string {
+			if rq, ok := p.(elasticsearch.IndexRequest); ok {
+				return "d" + rq.DocID
+			}
+			return "?"
+		}
+		go func() {
+			for {
+				select {
+				case ev := <-child.Ch:
+					record(keyOf(ev.Payload), "ok")
+				case ev := <-handler.Ch:
+					ee, ok := ev.Payload.(firebolt.EventError)
+					if !ok {
+						record("?", "?")
+						continue
+					}
+					key := "?"
+					if e0, ok := ee.Event.(*firebolt.Event); ok && e0 != nil {
+						key = keyOf(e0.Payload)
+					}
+					var fe firebolt.FBError
+					if errors.As(ee.Err, &fe) && fe.Code == "ES_INDEX_ERROR" && fe.ErrorInfo != nil {
+						if det, ok := fe.ErrorInfo.(*elastic.ErrorDetails); ok && det != nil && det.Index != "idx-of-"+strings.TrimPrefix(key, "d") {
+							record(key, "Ew")
+						} else {
+							record(key, "E")
+						}
+					} else {
+						record(key, "?")
+					}
+				case <-stopDrain:
+					return
+				}
+			}
+		}()
+	}
+	defer close(stopDrain)
 	submit := func(key string, payload interface{}) {
 		ev := &firebolt.Event{Payload: payload, Created: time.Now()}
+		if nctx != nil {
+			nctx.ProcessEvent(ev)
+			return
+		}
 		ae := firebolt.NewAsyncEvent(ev,
 			func(err error) {
 				var fe firebolt.FBError
@@ -346,6 +404,8 @@ func execEsSink(input string) string {
 		a := "-"
 		if len(answers[k]) > 0 {
 			a = strings.Join(answers[k], "+")
+		} else if mode == "ctx" {
+			a = "F" // neither the child nor the handler got anything: the executor took the answer for "filtered"
 		} else {
 			unans++
 		}
